@@ -31,3 +31,10 @@ func simSetTrace(on bool)
 
 // TraceDraws switches the runtime's draw trace on or off (debugging aid).
 func TraceDraws(on bool) { simSetTrace(on) }
+
+//go:linkname simSched runtime.simSched
+func simSched() (uint64, uint64)
+
+// SchedDigest: rolling hash of the scheduling decisions since the last reset,
+// and their number.
+func SchedDigest() (uint64, uint64) { return simSched() }
